@@ -598,6 +598,18 @@ func (s *Sim) settleControl(client string) {
 		if err := s.call(client, "stopwait", PipelineID, func(st *Stack) error { return st.life.StopAndWait(ctx, PipelineID) }); err != nil {
 			// e.g. another stop is already draining the pipeline: wait for that one to finish
 			_ = s.call(client, "wait", PipelineID, func(st *Stack) error { return st.life.WaitPipeline(PipelineID) })
+			// C11 wedge: the pipeline is reported running (memory and store agree), yet a stop
+			// is refused because there is no run, no plugin session is open, nothing is in
+			// flight - and a start is refused because the pipeline "is running"
+			if ds, _, dok := w.db.durableStatus(PipelineID); dok && ds == 1 && w.memStatus() == 1 && strings.Contains(err.Error(), "not running") &&
+				len(w.or.openSessions(w)) == 0 && !w.or.statusWriteFailedEver && w.worldParked() == 0 && len(w.or.ctl.startInFlight()) == 0 {
+				serr := s.call(client, "start", PipelineID+" (wedge probe)", func(st *Stack) error { return st.life.Start(ctx, PipelineID) })
+				if serr != nil && strings.Contains(serr.Error(), "is running") {
+					w.violate("C11", "wedged-running-without-run", fmt.Sprintf("the pipeline is reported running, but it can be neither stopped (%s) nor started (%s): no run exists and none can be created", firstLine(err.Error()), firstLine(serr.Error())))
+				} else if serr == nil {
+					_ = s.call(client, "stopwait", PipelineID, func(st *Stack) error { return st.life.StopAndWait(ctx, PipelineID) })
+				}
+			}
 		}
 	}
 	w.or.scenarioChecks(w)
